@@ -21,8 +21,9 @@ std::vector<EllCfg> ellipsoids() {
 }
 std::vector<double> latitudes(bool th) {
   std::vector<double> v;
-  double step = th ? 0.5 : 5.0;
-  for (double d = -89.9; d <= 89.9 + 1e-9; d += step) v.push_back(d);
+  double step = th ? 0.1 : 5.0;
+  for (int i = 0; -89.9 + i * step <= 89.9 + 1e-9; ++i) v.push_back(-89.9 + i * step);
+  if (th) for (int i = 0; i <= 90; ++i) { v.push_back(89.0 + 0.01 * i); v.push_back(-(89.0 + 0.01 * i)); }   // polar band 89..89.9 step 0.01
   for (double d : {0.0, 1e-9, -1e-9, 45.0, -45.0, 89.0, -89.0, 89.9, -89.9, 80.0, -80.0, -85.0, 85.0, 33.3}) v.push_back(d);
   std::sort(v.begin(), v.end()); v.erase(std::unique(v.begin(), v.end()), v.end());
   for (auto& d : v) d = d * M_PI / 180;
@@ -30,7 +31,7 @@ std::vector<double> latitudes(bool th) {
 }
 std::vector<double> longitudes(bool th) {
   std::vector<double> v;
-  double step = th ? 2.5 : 15.0;
+  double step = th ? 1.0 : 15.0;
   for (double d = -180; d <= 180; d += step) v.push_back(std::max(-M_PI, std::min(M_PI, d * M_PI / 180)));
   v.push_back(M_PI); v.push_back(-M_PI);
   for (int k = 3; k <= 15; ++k) { double e = std::pow(10.0, -k); v.push_back(M_PI - e); v.push_back(-(M_PI - e)); }
@@ -137,8 +138,8 @@ std::string vf_describe(const std::string& tier) {
   vf::JO o;
   o.u("ellipsoids", ellipsoids().size()).u("latitudes", latitudes(th).size()).u("longitudes", longitudes(th).size()).vec("heights_m", std::vector<double>(kHeights, kHeights + 7));
   o.str("ellipsoid_set", "library GRS80, Clarke 1880 IGN, International 1924, a0*(1+{-1e-3,0,1e-3}) x f in {0 (sphere), 1/600, 1/298.257222101, 1/290}");
-  o.str("latitudes_deg", th ? "-89.9..89.9 step 0.5 plus 0, +-1e-9, +-45, +-80, +-85, +-89, +-89.9, 33.3" : "-89.9..89.9 step 5 plus 0, +-1e-9, +-45, +-80, +-85, +-89, +-89.9, 33.3");
-  o.str("longitudes_rad", th ? "step 2.5 deg; +-pi exactly; +-(pi-1e-k) k=3..15; 0, +-pi/2 and their +-1e-k neighbours k=3,6,9,12,15" : "step 15 deg; +-pi exactly; +-(pi-1e-k) k=3..15; 0, +-pi/2 and their +-1e-k neighbours k=3,6,9,12,15");
+  o.str("latitudes_deg", th ? "-89.9..89.9 step 0.1, +-(89..89.9) step 0.01, plus 0, +-1e-9, +-45, +-80, +-85, +-89, +-89.9, 33.3" : "-89.9..89.9 step 5 plus 0, +-1e-9, +-45, +-80, +-85, +-89, +-89.9, 33.3");
+  o.str("longitudes_rad", th ? "step 1 deg; +-pi exactly; +-(pi-1e-k) k=3..15; 0, +-pi/2 and their +-1e-k neighbours k=3,6,9,12,15" : "step 15 deg; +-pi exactly; +-(pi-1e-k) k=3..15; 0, +-pi/2 and their +-1e-k neighbours k=3,6,9,12,15");
   o.str("cartesian_extra", "(-r,+0,z) and (-r,-0,z) on the exact antimeridian half-plane, on the surface and 0.1% above");
   o.str("tolerances", "forward map vs definition 1 micrometre; round trips 1e-9 rad (longitude modulo 2 pi) and 1 mm");
   return o.done();
